@@ -16,6 +16,17 @@ use std::time::Instant;
 
 pub const VERIF_ROOT: &str = "/verif";
 
+/// Where replays/ and evidence/ are written: /verif, or $VERIF_OUT when a scratch copy of the
+/// repository is being checked (tools/try_mutant.sh), so that such a run never touches committed evidence.
+pub fn out_root() -> PathBuf {
+    std::env::var("VERIF_OUT").map(PathBuf::from).unwrap_or_else(|_| PathBuf::from(VERIF_ROOT))
+}
+
+/// The repository whose data files are read at run time (the sources are fixed at build time by ./check).
+pub fn repo_root() -> PathBuf {
+    std::env::var("VERIF_REPO").map(PathBuf::from).unwrap_or_else(|_| PathBuf::from("/repo"))
+}
+
 #[derive(Clone, Copy, PartialEq, Eq, Debug)]
 pub enum Tier {
     Quick,
@@ -322,7 +333,7 @@ impl Ctx {
         if v.iter().any(|(g, _)| g.signature == f.signature) || v.len() >= 20 {
             return;
         }
-        let dir = PathBuf::from(VERIF_ROOT).join("replays").join(&self.prop);
+        let dir = out_root().join("replays").join(&self.prop);
         let _ = std::fs::create_dir_all(&dir);
         let mut body = f.replay.clone();
         if let Value::Object(m) = &mut body {
@@ -376,7 +387,7 @@ impl Ctx {
                 "wall_s": (wall * 1000.0).round() / 1000.0,
                 "violations": viol.len(),
             });
-            let dir = PathBuf::from(VERIF_ROOT).join("evidence");
+            let dir = out_root().join("evidence");
             let _ = std::fs::create_dir_all(&dir);
             let path = dir.join(format!("{}.json", self.prop));
             std::fs::write(&path, serde_json::to_string_pretty(&ev).unwrap()).expect("write evidence");
